@@ -227,18 +227,31 @@ func (i *Index) AddDesc(d Descriptor, opts ...IndexOpt) {
 		}
 	}
 	// search for matching or compatible entry
+	untagged := -1
 	for mi, md := range i.Manifests {
 		if md.Digest == d.Digest {
 			if tag == "" && referrer == "" {
 				return
 			}
-			if md.Annotations == nil ||
-				((tag == "" || md.Annotations[AnnotRefName] == "" || md.Annotations[AnnotRefName] == tag) &&
-					(referrer == "" || md.Annotations[AnnotReferrerSubject] == "" || md.Annotations[AnnotReferrerSubject] == referrer)) {
+			mdTag, mdReferrer := "", ""
+			if md.Annotations != nil {
+				mdTag = md.Annotations[AnnotRefName]
+				mdReferrer = md.Annotations[AnnotReferrerSubject]
+			}
+			if mdTag == tag && mdReferrer == referrer {
+				// same tag and referrer, replace the entry
 				i.Manifests[mi] = d
 				return
 			}
+			if mdTag == "" && mdReferrer == "" && untagged < 0 {
+				untagged = mi
+			}
 		}
+	}
+	if untagged >= 0 {
+		// an entry without a tag or referrer is updated, other tags and referrers are preserved
+		i.Manifests[untagged] = d
+		return
 	}
 	// append entry if no match found
 	i.Manifests = append(i.Manifests, d)
